@@ -304,6 +304,10 @@ pub enum POp {
     SetCreationFee { amount: u32, denom: u8 },
     Advance { secs: u32 },
     Bad(Bad),
+    /// a trader swaps an amount out and back through 1-3 pools (only the C03 engine generates it)
+    RoundTrip { user: u8, pool: u16, offer: u8, path: Vec<(u16, u8)>, ppm: u32, close: u16 },
+    /// fully resolved direct swap (used internally by RoundTrip; never generated)
+    SwapExact { user: u8, pool_id: String, offer_denom: String, ask_denom: String, amount: u128 },
 }
 
 fn user() -> impl Strategy<Value = u8> {
@@ -440,6 +444,7 @@ pub fn misc_strat() -> impl Strategy<Value = POp> {
 /// Weights of the op kinds; each property tunes them towards what it needs.
 #[derive(Debug, Clone, Copy)]
 pub struct Weights {
+    pub roundtrip: u32,
     pub create: u32,
     pub provide: u32,
     pub single: u32,
@@ -452,7 +457,7 @@ pub struct Weights {
 
 impl Default for Weights {
     fn default() -> Self {
-        Weights { create: 2, provide: 8, single: 4, withdraw: 5, swap: 10, route: 5, misc: 3, bad: 2 }
+        Weights { roundtrip: 0, create: 2, provide: 8, single: 4, withdraw: 5, swap: 10, route: 5, misc: 3, bad: 2 }
     }
 }
 
@@ -466,6 +471,8 @@ pub fn op_strat(w: Weights, simple_routes: bool) -> impl Strategy<Value = POp> {
         w.route => route_strat(simple_routes),
         w.misc => misc_strat(),
         w.bad => bad_strat().prop_map(POp::Bad),
+        w.roundtrip => (0u8..4, any::<u16>(), 0u8..4, proptest::collection::vec((any::<u16>(), 0u8..3), 0..3), 1u32..300_000, any::<u16>())
+            .prop_map(|(user, pool, offer, path, ppm, close)| POp::RoundTrip { user, pool, offer, path, ppm, close }),
     ]
 }
 
